@@ -18,8 +18,11 @@ TRUSTED = [
     "ed_size_bin, ed_curve_get_gen, hashing to the curve (ed_map, ed_map_dst: the specification is the plain RFC 9380 construction — "
     "expand_message_xmd, Elligator 2, birational map, cofactor clearing — and the result is also required to satisfy r*P = O; the optimised "
     "straight-line code of ed_map_ell2_5mod8 is not modelled), fp_srt / fp_inv / fp_exp (C02)",
-    "modelled and compared, without a theorem of their own: ed_is_infty (hand-written predicate), the dispatch of ed_mul_gen / ed_mul_sim_gen "
-    "(incl. the generator-table branch of ed_mul_sim_plain), ed_mul_dig (= the binary-NAF loop of ed_mul_basic on one digit)",
+    "also class A since the extension: ed_mul_dig (model mulDig with the naf[RLC_DIG + 1] buffer; theorem mul_dig) and the dispatch of "
+    "ed_mul_gen / ed_mul_sim_gen (theorem mul_gen_dispatch: right whenever the routines it calls are); the precomputation tables of "
+    "ed_mul_pre_basic / combs / combd / lwnaf are printed entry by entry (op edtab) and compared with the table models (tabPow2, tabCombs, "
+    "tabCombd, tabOdd) and with the integer multiple each entry must be",
+    "modelled and compared, without a theorem of their own: ed_is_infty (hand-written predicate)",
     "the theorems about scalar multiplication are over the abstract commutative group killed by r, instantiated in the correspondence by the "
     "curve points; that the affine law IS a group law (associativity) is the classical theorem about twisted Edwards curves and is not "
     "re-proved here (Mathlib has no Edwards model); commutativity, neutral element, inverse and closure under the complete law are proved",
@@ -362,6 +365,8 @@ def gen_mul(rng, cv, sysname, count, part=None):
             for P in (cv.g, rng.choice(pool)):
                 out.append("edtab %s %s" % (v, ptok(rng, cv, P, "")))
         out.append("edtab combd %s" % ptok(rng, cv, cv.O, ""))
+    else:
+        out.append("edtab combd %s" % ptok(rng, cv, rng.choice(pool), ""))      # every build sees the double table at least once
     for _ in range(count):
         k = rng.below(100)
         if k < 55:
